@@ -318,6 +318,9 @@ def check(ctx):
     ctx.rule("R11", "every blocking command is carried out: the blocking twins hand their command to the task registry under a fixed task name; the registry, interpreted on model tasks, starts a task for EVERY add_task call - also while a task of the same name and key is still running (C10.R3's registry model borrowed)")
     from ..taskmodel import check_registry as _cr13
     _cr13(ctx.borrowed("R11", "C10"), repo, "R3", only=("same-name",))
+    ctx.rule("R12", "the second command's acknowledgement is its own: acknowledgements of pack commands are byte-identical datagrams (no sequence number), so the receive queue must tell a datagram from an EQUAL one that follows it - a mark left on a consumed acknowledgement must not hold for the next, equal one, or the discard consumer throws the second command's acknowledgement away and the command is sent again (a key press then toggles twice) (C07.R3's queue model borrowed)")
+    from .c07 import queue_model as _qm13
+    _qm13(ctx.borrowed("R12", "C07", key_prefix="AsyncPeekableQueue::mark"), repo, "R3")
     ctx.rule("R10", "read-back after the echo: what the facade's sensors present is what the items decode from the block as it is now, also after a unit change that leaves the temperature word untouched (C14.R9 borrowed)")
     from .c14 import presented_value_follows_the_block
     presented_value_follows_the_block(ctx.borrowed("R10", "C14"), repo, "R9")
